@@ -231,7 +231,13 @@ def execute(plan):
             if len(on):
                 v.append(V('handover', 'static generator %s %r was out of service in the power flow and is in service after dynamic '
                            'initialisation' % (n, ss.models[n].idx.v[int(on[0])]), what='static_gen_switched_on'))
-        if plan.get('offline') and off_info.get('unit') and ok is False:
+        static_left = any(np.any(np.asarray(m_.u.v) != 0) for m_ in ss.StaticGen.models.values() if m_.n)
+        if plan.get('offline') and off_info.get('unit') and ok is False and \
+                (len(ss.Bus.nosw_island) + len(ss.Bus.msw_island) > 0 or static_left):
+            # the removal left an island without (or with two) slack, or a static generator without a machine picks up the
+            # difference in the power flow but keeps its p0 in the dynamics (kundur_islands): no consistent data any more
+            probes['precondition_unmet'] = probes.get('precondition_unmet', 0) + 1
+        elif plan.get('offline') and off_info.get('unit') and ok is False:
             # one violation per (model, variable) with a residual: a recorded finding on one model must not hide another model
             names = ss.dae.x_name + ss.dae.y_name
             seen = set()
